@@ -207,12 +207,14 @@ def get_operation_count(layer, input_shape):
     # Note: asserts have been changed to sum(*shape > 1) <= 1 to avoid the case
     # when the dense layer has an output with shape (None, 1), which results in
     # sum(oshape > 1) = 0.
-    ishape = np.array([i for i in input_shape if i is not None])
+    # The batch size (first dimension) may be a number when the model was
+    # built with a fixed batch size; it is never part of the count.
+    ishape = np.array([i for i in input_shape[1:] if i is not None])
     assert sum(ishape > 1) <= 1, ("Input Tensor shape in %s has "
                                   "multiple >1 size dims") % layer.name
     size_i = np.max(ishape)
 
-    oshape = np.array([i for i in output_shape if i is not None])
+    oshape = np.array([i for i in output_shape[1:] if i is not None])
     assert sum(oshape > 1) <= 1, ("Output Tensor shape in %s has " +
                                   "multiple >1 size dims") % layer.name
     size_o = np.max(oshape)
